@@ -44,6 +44,8 @@ BasePieces == <<
                                                         ArD("color", Nm("Color"), L("enum", "RED")), Ar("sub", Nm("Filter")),
                                                         ArD("ratio", Nm("Float"), L("float", "1.5")), ArD("note", Nm("String"), L("str", "a b")),
                                                         ArD("quoted", Nm("String"), L("str", "say \"hi\" \\ bye")),
+                                                        \* a string that ends (and begins) with an escaped quote
+                                                        ArD("endq", Nm("String"), L("str", "\"use\" \"B\"")),
                                                         \* an explicit null default is a default
                                                         ArD("maybe", Nm("Int"), L("null", 0)) >>],
   [Piece(FALSE, "INTERFACE", "Node") EXCEPT !.fields = << Fd("id", Nn(Nm("ID")), <<>>), Fd("label", Nm("String"), <<ArD("up", Nm("Boolean"), L("bool", TRUE))>>) >>],
@@ -323,5 +325,7 @@ Breaks(ps) ==
   \cup {BR("extensions", "duplicate-member", Append(ps, [ExtPiece("UNION", "Item") EXCEPT !.members = <<"Post">>]))}
   \cup {BR("extensions", "duplicate-interface", Append(ps, [ExtPiece("OBJECT", "User") EXCEPT !.ifaces = <<"Node">>]))}
   \* syntax
-  \cup {BR("syntax", "raw", Append(ps, [Piece(FALSE, "RAW", x) EXCEPT !.impl = "raw"])) : x \in {"type {", "type A { a: }", "enum E { }", "input I { x: Int = }", "type B implements { a: Int }", "extend", "scalar", "union U = | |", "directive @d on", "type C { a(: Int): Int }"}}
+  \cup {BR("syntax", "raw", Append(ps, [Piece(FALSE, "RAW", x) EXCEPT !.impl = "raw"])) : x \in {"type {", "type A { a: }", "enum E { }", "input I { x: Int = }", "type B implements { a: Int }", "extend", "scalar", "union U = | |", "directive @d on", "type C { a(: Int): Int }",
+                                                                                                  \* extensions that extend nothing
+                                                                                                  "extend type Query", "extend interface Node", "extend enum Color", "extend input Filter", "extend union Item", "extend schema"}}
 =============================================================================
